@@ -200,8 +200,16 @@ func lemmaSumDurs(itvls []LossItvl, n int) {
 //@   ensures result == sumDurs(l.Itvls, len(l.Itvls))
 //@   loop 1 invariant 0 <= rangeidx && rangeidx <= len(l.Itvls) && dur == sumDurs(l.Itvls, rangeidx)
 
+// specStateAt: the value of StateAt as a function of the pattern (its slice header) and the second.
+// Uninterpreted; it stands for the method's result and is only meaningful while the pattern's
+// intervals are not modified (they are written at URL-parsing time only: C07 frame obligations).
+func specStateAt(l LossItvls, nowS int) lossState { return l.StateAt(nowS) }
+
+//@ uninterpreted specStateAt
+
 // StateAt: the state of the interval that contains second nowS of the cyclically repeated pattern.
 //@ func LossItvls.StateAt
+//@   defines  specStateAt(l, nowS)
 //@   requires wfItvls(l.Itvls) && len(l.Itvls) > 0 && len(l.Itvls) <= 1000 && nowS >= 0
 //@   use      lemmaSumDurs(l.Itvls, len(l.Itvls))
 //@   ensures  never_unknown: result >= lossNo && result <= lossHang
@@ -454,6 +462,7 @@ const (
 //@   ensures  times: result.startTime == calcAudioTimeFromRef(refStart, refTimescale, uint64(*rd.ConstantSampleDuration), uint64(rd.MediaTimescale)) && result.endTime == calcAudioTimeFromRef(refEnd, refTimescale, uint64(*rd.ConstantSampleDuration), uint64(rd.MediaTimescale))
 //@   ensures  ident: result.rep == rd && result.segNr == refNr && result.startTime <= result.endTime
 //@   ensures  accounting: (result.audioInEnd - result.audioInStart) + result.audioInEndAfterWrap == result.endTime - result.startTime
+//@   store endWrap := requires wrapAfterStart: endWrap > startWrap ==> refStart <= endWrap
 //@   ensures  ordered: result.audioInStart <= result.audioInEnd
 
 // lemmaFrameCeilMono: the frame boundary at/after a time is monotone in that time.
@@ -989,6 +998,7 @@ func tfdtTime(t *mp4.TfdtBox) uint64 { return t.BaseMediaDecodeTime() }
 //@   wiring
 //@   keep     index
 //@   callsite StateAt requires second: arg_nowS == nowMS/1000
+//@   callsite writeSegment requires patternConsulted: len(cfg.Traffic) > 0 && patternNr >= 0 ==> patternNr < len(cfg.Traffic) && (specStateAt(cfg.Traffic[patternNr], nowMS/1000) == lossNo || specStateAt(cfg.Traffic[patternNr], nowMS/1000) == lossSlow)
 
 // ---------------------------------------------------------------------------
 // C12 wiring: generated subtitle segments get the number, the millisecond decode time and
